@@ -279,6 +279,11 @@ def e2e_corr(ctx, n: int, big: bool = False, record: bool = False) -> None:
 
 
 def explore(ctx, factor, bs):
+    if factor > 1:
+        # there is no oracle in this stream: a byte-level mismatch already carries its workbook, a search for an
+        # oracle failure has nothing to find
+        ctx.notes["search_skipped"] = "correspondence-only stream: the mismatches carry the workbooks"
+        return
     e2e_corr(ctx, ctx.pick(1500, 20000) * factor, big=not ctx.quick(), record=True)
 
 
